@@ -299,6 +299,9 @@ def _(ctx, env0, env, out):
 
 def fft2_call_model(ctx, env):
     x = A.as_array(ctx, env['x'])
+    # numpy.fft raises ValueError('Invalid number of FFT data points (0)') on an empty axis
+    if ctx.branch(z3.Or(S.z(S.eq(x.shape[0], 0)), S.z(S.eq(x.shape[1], 0)))):
+        raise Raised('ValueError', 'Invalid number of FFT data points (0) specified.')
     ctx.__dict__.setdefault('ghost_fft2_inputs', []).append(x.snapshot())
     ctx.assumptions.add('abstract:lentil.propagate._fft2 (centred unitary FFT; bounded stand-in C09)')
     return A.fresh_array(ctx, 'fft2_out', x.shape, 'complex')
@@ -374,7 +377,13 @@ def _pfft_contract(tag, with_scratch):
         sh = env['scratch'].shape
         return z3.And(z3.Not(S.z(_has_tilt_model(ctx, env))), z3.Not(too_large(ctx, env)),
                       z3.Or(S.z(S.lt(sh[0], N.at((0,)))), S.z(S.lt(sh[1], N.at((1,))))))
-    c.raises['ValueError'] = lambda ctx, env: z3.Or(too_large(ctx, env), scratch_small(ctx, env))
+
+    def grid_empty(ctx, env):
+        # numpy.fft refuses an empty axis; reached only when the two earlier checks passed
+        N, _ = grid(ctx, env)
+        return z3.And(z3.Not(S.z(_has_tilt_model(ctx, env))),
+                      z3.Or(S.z(S.eq(N.at((0,)), 0)), S.z(S.eq(N.at((1,)), 0))))
+    c.raises['ValueError'] = lambda ctx, env: z3.Or(too_large(ctx, env), scratch_small(ctx, env), grid_empty(ctx, env))
 
     @c.post('transform_of_the_padded_total_field')
     def _(ctx, env0, env, out):
@@ -382,20 +391,23 @@ def _pfft_contract(tag, with_scratch):
         N, lam = grid(ctx, env0)
         N0, N1 = N.at((0,)), N.at((1,))
         os_ = env0['oversample']
-        ins = ctx.__dict__.get('ghost_fft2_inputs', [])
-        ctx.oblige('propagate.propagate_fft::fft2_called_once[%s]' % tag, len(ins) == 1)
-        if len(ins) != 1:
-            return None
-        x = ins[0]
-        r, cc = ints(ctx, 'r', 'c')
-        want = F.total(ctx, w0.attrs['data'].items, r - S.z(N0) / 2, cc - S.z(N1) / 2)
-        inr = z3.And(r >= 0, r < S.z(N0), cc >= 0, cc < S.z(N1))
-        ctx.oblige('propagate.propagate_fft::grid_shape[%s]' % tag,
-                   z3.And(S.z(S.eq(x.shape[0], N0)), S.z(S.eq(x.shape[1], N1))))
-        # the array handed to the FFT is the total field with its origin sample at index floor(N/2),
-        # zero elsewhere - whatever the scratch buffer held before
-        ctx.oblige('propagate.propagate_fft::fft_input_is_padded_total_field[%s]' % tag,
-                   z3.Implies(inr, F.cx_eq(x.at((r, cc)), want)))
+        # the clauses over the ghost record of what was handed to _fft2 exist only in the symbolic run;
+        # a native replay sees the returned Wavefront alone and checks the remaining clauses
+        if not getattr(ctx, 'replaying', False):
+            ins = ctx.__dict__.get('ghost_fft2_inputs', [])
+            ctx.oblige('propagate.propagate_fft::fft2_called_once[%s]' % tag, len(ins) == 1)
+            if len(ins) != 1:
+                return None
+            x = ins[0]
+            r, cc = ints(ctx, 'r', 'c')
+            want = F.total(ctx, w0.attrs['data'].items, r - S.z(N0) / 2, cc - S.z(N1) / 2)
+            inr = z3.And(r >= 0, r < S.z(N0), cc >= 0, cc < S.z(N1))
+            ctx.oblige('propagate.propagate_fft::grid_shape[%s]' % tag,
+                       z3.And(S.z(S.eq(x.shape[0], N0)), S.z(S.eq(x.shape[1], N1))))
+            # the array handed to the FFT is the total field with its origin sample at index floor(N/2),
+            # zero elsewhere - whatever the scratch buffer held before
+            ctx.oblige('propagate.propagate_fft::fft_input_is_padded_total_field[%s]' % tag,
+                       z3.Implies(inr, F.cx_eq(x.at((r, cc)), want)))
         g = res.attrs['data'].items
         ctx.oblige('propagate.propagate_fft::one_output_field[%s]' % tag, len(g) == 1)
         ps = res.attrs['_pixelscale']
